@@ -1,0 +1,27 @@
+//go:build verif
+
+package vgirpc
+
+import "github.com/apache/arrow-go/v18/arrow"
+
+// Verification hooks for property C41 (build tag "verif", add-only): thin
+// wrappers used by the harness to measure, with the process allocator, how
+// many bytes the framework's own batch constructors hold.
+
+// VerifC41NewCollector wraps newOutputCollector.
+func VerifC41NewCollector(schema *arrow.Schema, producerMode bool) *OutputCollector {
+	return newOutputCollector(schema, "", producerMode)
+}
+
+// VerifC41ReleaseBatches wraps OutputCollector.releaseBatches.
+func (o *OutputCollector) VerifC41ReleaseBatches() { o.releaseBatches() }
+
+// VerifC41Cast wraps castRecordBatch.
+func VerifC41Cast(batch arrow.RecordBatch, target *arrow.Schema) (arrow.RecordBatch, error) {
+	return castRecordBatch(batch, target)
+}
+
+// VerifC41SerializeResult wraps serializeResult.
+func VerifC41SerializeResult(schema *arrow.Schema, value any) (arrow.RecordBatch, error) {
+	return serializeResult(schema, value)
+}
